@@ -322,7 +322,10 @@ class CrackShapeDependent(WeibullFailureModel):
         sigma = self.calculate_total_stress(mandel_stress)
 
         # Shear stress
-        return np.sqrt(sigma**2 - sigma_n**2)
+        # The difference is zero where the traction is normal to the plane
+        # and can round to a tiny negative number there: clip, so that those
+        # orientations are kept (shear zero) instead of becoming NaN
+        return np.sqrt(np.maximum(sigma**2 - sigma_n**2, 0.0))
 
     def calculate_flattened_eq_stress(
         self,
